@@ -22,7 +22,8 @@ import (
 
 type jobSpec struct {
 	Name     string
-	Func     string // harness function name inside the check's package
+	Pkg      string // harness package of this job ("" = the check's package)
+	Func     string // harness function name inside the package
 	Params   map[string]string
 	Opts     interp.Options
 	MaxPaths int
@@ -92,6 +93,7 @@ type nativeResult struct {
 	Panic      string            `json:"panic,omitempty"`
 	Hang       bool              `json:"hang,omitempty"`
 	AssumeFail bool              `json:"assume_failed,omitempty"`
+	CutLabel   string            `json:"cut,omitempty"`
 }
 
 func workDir(id string) string {
@@ -141,9 +143,13 @@ func nativeBatch(id, pkg string, items []nativeItem) ([]nativeResult, string, er
 		}
 		cmd := exec.Command(bin, "-test.run", "^TestNativePlayback$", "-test.count=1", "-test.timeout=20m")
 		cmd.Dir = dir
-		cmd.Env = append(os.Environ(), "GOSYM_BATCH="+bp, "GOSYM_OUT="+op)
+		scratch := filepath.Join(dir, "tmp")
+		os.RemoveAll(scratch)
+		os.MkdirAll(scratch, 0o755)
+		cmd.Env = append(os.Environ(), "GOSYM_BATCH="+bp, "GOSYM_OUT="+op, "TMPDIR="+scratch)
 		out, runErr := cmd.CombinedOutput()
 		log.Write(out)
+		os.RemoveAll(scratch) // whatever a dying native process left behind
 		f, err := os.ReadFile(op)
 		if err != nil {
 			return nil, log.String(), fmt.Errorf("native playback produced no output: %v\n%s", runErr, out)
@@ -293,7 +299,21 @@ func runCheck(def *checkDef, tier string, seed int64, workers int) int {
 		inconclusive = append(inconclusive, msg)
 		fmt.Println("INCONCLUSIVE:", msg)
 	}
-	ld, err := loadProgram([]string{modulePath + "/" + overlayDir + "/" + def.Pkg}, false)
+	jobs := def.Jobs(tier, seed)
+	pkgOf := func(j jobSpec) string {
+		if j.Pkg != "" {
+			return j.Pkg
+		}
+		return def.Pkg
+	}
+	patterns := []string{modulePath + "/" + overlayDir + "/" + def.Pkg}
+	for _, j := range jobs {
+		pat := modulePath + "/" + overlayDir + "/" + pkgOf(j)
+		if !containsStr(patterns, pat) {
+			patterns = append(patterns, pat)
+		}
+	}
+	ld, err := loadProgram(patterns, false)
 	if err != nil {
 		fmt.Println("INCONCLUSIVE: cannot load /repo with the harness:", err)
 		writeEvidence(def, tier, seed, nil, nil, nil, 0, 0, time.Since(t0), []string{"load failed: " + err.Error()}, nil)
@@ -373,7 +393,6 @@ func runCheck(def *checkDef, tier string, seed int64, workers int) int {
 	}
 
 	// 2. the symbolic jobs
-	jobs := def.Jobs(tier, seed)
 	var results []*interp.JobResult
 	total := struct {
 		paths, oblig, disch, unknown, decisions int
@@ -390,7 +409,7 @@ func runCheck(def *checkDef, tier string, seed int64, workers int) int {
 	var samples []interface{}
 	rng := rand.New(rand.NewSource(seed))
 	for n, j := range jobs {
-		res, err := eng.RunJob(interp.Job{Name: j.Name, Func: pkgPrefix + j.Func, Params: j.Params, Opts: j.Opts, MaxPaths: j.MaxPaths}, workers)
+		res, err := eng.RunJob(interp.Job{Name: j.Name, Func: modulePath + "/" + overlayDir + "/" + pkgOf(j) + "." + j.Func, Params: j.Params, Opts: j.Opts, MaxPaths: j.MaxPaths}, workers)
 		if err != nil {
 			note("job %s: %v", j.Name, err)
 			continue
@@ -468,7 +487,7 @@ func runCheck(def *checkDef, tier string, seed int64, workers int) int {
 			order = append(order, v.ID)
 		}
 		g.Count++
-		if len(g.Examples) < 3 {
+		if len(g.Examples) < 8 {
 			g.Examples = append(g.Examples, v)
 		}
 	}
@@ -477,8 +496,10 @@ func runCheck(def *checkDef, tier string, seed int64, workers int) int {
 	exit := 0
 	knownMatched := []string{}
 	jobFunc := map[string]string{}
+	jobPkg := map[string]string{}
 	for _, j := range jobs {
 		jobFunc[j.Name] = j.Func
+		jobPkg[j.Name] = pkgOf(j)
 	}
 	for _, sig := range order {
 		g := groups[sig]
@@ -488,7 +509,7 @@ func runCheck(def *checkDef, tier string, seed int64, workers int) int {
 			for _, ex := range g.Examples {
 				items = append(items, nativeItem{Func: jobFunc[ex.Job], Vars: ex.Model, Params: ex.Params})
 			}
-			nres, log, err := nativeBatch(def.ID, def.Pkg, items)
+			nres, log, err := nativeBatch(def.ID, jobPkg[g.Examples[0].Job], items)
 			if err != nil {
 				note("native replay of %s failed: %v %s", sig, err, lastLines(log, 10))
 			} else {
@@ -545,31 +566,52 @@ func runCheck(def *checkDef, tier string, seed int64, workers int) int {
 
 	// 6. validate a seed-chosen sample of symbolic paths natively
 	tv := 0
+	notReplayable := 0
 	if def.NativeCheck {
-		var items []nativeItem
-		var want []interp.PathSample
+		perJob := 2
+		if len(results) <= 4 {
+			perJob = 25
+		}
+		byPkg := map[string][]nativeItem{}
+		wantBy := map[string][]interp.PathSample{}
+		total := 0
 		for _, res := range results {
-			if len(res.Samples) == 0 {
+			if len(res.Samples) == 0 || total >= 120 {
 				continue
 			}
-			for n := 0; n < 2 && n < len(res.Samples); n++ {
-				s := res.Samples[rng.Intn(len(res.Samples))]
-				if s.End != "ok" {
+			perm := rng.Perm(len(res.Samples))
+			taken := 0
+			for _, k := range perm {
+				if taken >= perJob {
+					break
+				}
+				s := res.Samples[k]
+				if s.End != "ok" || strings.HasPrefix(s.Detail, "stop-at") {
 					continue
 				}
-				items = append(items, nativeItem{Func: jobFunc[res.Job], Vars: s.Model, Params: res.Params})
-				want = append(want, s)
-			}
-			if len(items) >= 60 {
-				break
+				pk := jobPkg[res.Job]
+				byPkg[pk] = append(byPkg[pk], nativeItem{Func: jobFunc[res.Job], Vars: s.Model, Params: res.Params})
+				wantBy[pk] = append(wantBy[pk], s)
+				taken++
+				total++
 			}
 		}
-		if len(items) > 0 {
-			nres, log, err := nativeBatch(def.ID, def.Pkg, items)
+		var pks []string
+		for pk := range byPkg {
+			pks = append(pks, pk)
+		}
+		sort.Strings(pks)
+		for _, pk := range pks {
+			items, want := byPkg[pk], wantBy[pk]
+			nres, log, err := nativeBatch(def.ID, pk, items)
 			if err != nil {
 				note("native validation of sampled paths failed: %v %s", err, lastLines(log, 10))
 			} else {
 				for k := range items {
+					if nres[k].AssumeFail && nres[k].CutLabel != "" {
+						notReplayable++ // the harness declines to replay this configuration natively
+						continue
+					}
 					if nres[k].AssumeFail {
 						note("sampled path model violates a harness assumption natively: %s", modelSummary(items[k].Vars))
 						continue
@@ -621,6 +663,7 @@ func runCheck(def *checkDef, tier string, seed int64, workers int) int {
 		"traces_validated_against_impl": validated + tv,
 		"corpus_validated":              validated,
 		"sampled_paths_validated":       tv,
+		"sampled_paths_not_replayable_natively": notReplayable,
 		"states":                        total.paths,
 		"transitions":                   total.decisions,
 		"samples":                       samples,
@@ -633,6 +676,19 @@ func runCheck(def *checkDef, tier string, seed int64, workers int) int {
 	for _, sig := range order {
 		g := groups[sig]
 		sigs = append(sigs, map[string]interface{}{"signature": sig, "paths": g.Count, "confirmed_natively": g.Confirmed, "known_finding": g.Known, "example": modelSummary(g.Examples[0].Model), "observed": g.Examples[0].Observed})
+	}
+	if def.OnlyPrefix != "" {
+		own := 0
+		ownIDs := map[string]int{}
+		for k, v := range reach {
+			if strings.HasPrefix(k, "assert:"+def.OnlyPrefix) {
+				own += v
+				ownIDs[strings.TrimPrefix(k, "assert:")] = v
+			}
+		}
+		cov["paths_reaching_assertions_of_this_property"] = ownIDs
+		cov["note_on_counts"] = "the harness is shared with other properties: 'obligations' counts every assertion instance of the harness; the map above counts, per assertion of this property, the paths on which it was evaluated"
+		_ = own
 	}
 	cov["violation_signatures"] = sigs
 	cov["violations_of_other_properties_seen_by_the_shared_harness"] = otherProps
